@@ -77,10 +77,12 @@ def sample_of(batches, k=3):
     return out
 
 
-def plan_spline_build(ctx, props, env, nrep_quick, nrep_thorough, tdom="W", extra_execs=None, mc=True, rule="", level="model_checking"):
+def plan_spline_build(ctx, props, env, nrep_quick, nrep_thorough, tdom="W", extra_execs=None, mc=True, rule="", level="model_checking", repo_tests=()):
     selftest_rat(ctx)
     if mc:
         mc_splinemath(ctx)
+    if repo_tests:
+        repo_test_traces(ctx, repo_tests)
     exe = vbuild.spline_replay()
     r = gen.Rng(ctx.seed * 1000003 + hash(ctx.prop) % 1000)
     r = gen.Rng(ctx.seed * 1000003 + sum(map(ord, ctx.prop)))
@@ -98,6 +100,50 @@ def plan_spline_build(ctx, props, env, nrep_quick, nrep_thorough, tdom="W", extr
                   props_judged=props)
 
 
+def repo_test_traces(ctx, tests, first=40, every=2000):
+    """code -> spec on executions the verification did not write: the repository's own test programs, unmodified, built with the
+    guarded build-observer hook, record every spline build they perform (rate limited); TLC validates the recordings"""
+    from concurrent.futures import ThreadPoolExecutor
+
+    def one(t):
+        exe = vbuild.repo_test_with_hooks(t)
+        out = os.path.join(ctx.work, "repo-" + t.replace(".cpp", "") + ".trace.ndjson")
+        env = dict(os.environ)
+        env.update({"VERIF_TRACE_OUT": out, "VERIF_TRACE_FIRST": str(first), "VERIF_TRACE_EVERY": str(every)})
+        try:
+            subprocess.run([exe], cwd=ctx.work, env=env, stdout=subprocess.DEVNULL, stderr=subprocess.DEVNULL, timeout=1200)
+        except subprocess.TimeoutExpired:
+            return (t, None)
+        return (t, out)
+    with ThreadPoolExecutor(max_workers=4) as ex:
+        res = list(ex.map(one, tests))
+    env = {"VJ_MIN": "1"}
+    for (t, out) in res:
+        if not out or not os.path.exists(out) or os.path.getsize(out) == 0:
+            ctx.infra.append("the repository test %s built with hooks produced no trace" % t)
+            continue
+        r = validate_trace(ctx, "TraceSpline", out, out + ".out.json", env)
+        if "infra" in r:
+            ctx.infra.append(r["infra"])
+            continue
+        n = r["stats"].get("executions", 0)
+        ctx.traces += n
+        ctx.stats["repo_test_builds_validated"] = ctx.stats.get("repo_test_builds_validated", 0) + n
+        for k, v in r["stats"].items():
+            if isinstance(v, int):
+                ctx.stats[k] = ctx.stats.get(k, 0) + v
+        for k, v in (r.get("worst") or {}).items():
+            try:
+                ctx.worst[k] = max(ctx.worst.get(k, 0.0), float(v))
+            except ValueError:
+                pass
+        for d in r["bad"]:
+            d["batch"] = -1
+            d["script"] = out
+            d.setdefault("info", {})["repo_test"] = t
+            ctx.devs.append(d)
+
+
 def plan_C01(ctx):
     return plan_spline_build(ctx, {"C01"}, {}, 1, 12,
                              rule="every order x dimension 1..10 x N 1..10, the four construction/update overloads cycled, "
@@ -107,8 +153,10 @@ def plan_C01(ctx):
 
 
 def plan_C02(ctx):
-    return plan_spline_build(ctx, {"C02"}, {"VJ_MIN": "1"}, 1, 8,
-                             rule="as C01; every build in W with at most 40 unknowns is additionally compared coefficient-wise with "
+    return plan_spline_build(ctx, {"C02"}, {"VJ_MIN": "1"}, 1, 8, repo_tests=("test_bc_grad.cpp", "test_Grad.cpp") if ctx.quick() else
+                             ("test_bc_grad.cpp", "test_Grad.cpp", "test_cost_grad.cpp", "test_with_min_jerk_3d.cpp", "test_with_min_snap_3d.cpp"),
+                             rule="the repository's own test programs (unmodified, built with the guarded build-observer hook) are run and "
+                                  "every spline build they perform (rate limited) is validated like the replayed ones; as C01; every build in W with at most 40 unknowns is additionally compared coefficient-wise with "
                                   "the exact dense solve of the optimality conditions (SplineMath!MinCoeffs); continuity residuals of "
                                   "derivatives 1..2s-2 at every interior knot are evaluated exactly on the logged bits")
 
